@@ -247,6 +247,21 @@ example : ctrsOf (run (st1 5 [{ bk 0 0 with conns := 2, reqs := 1 }, bk 1 1] (.r
     [.health 0 0 false 1, .fail 0 1 3, .tick 9, .select 0 env0, .setPolicy 0 .maglev none, .closing 0 0, .inc 1 0,
      .healthOff 0, .sticky 0 3 env0]) 0 = [(0, 0, 2, 1), (1, 1, 0, 0)] := by decide
 
+/-- What one proxied request does to the selected backend (router glue:
+    `try_connect` → `inc`, then `succeed` on a completed connect or `fail` on a
+    refused one, then `dec` when the backend connection is closed): for every
+    state and every Normal backend, the whole cycle leaves every (id, address,
+    connections, requests) row of the cluster as it was — a finished or failed
+    request can neither leak nor lose a connection count. -/
+theorem C12_connect_cycle_balanced (s : State) (c i : Nat) (l : BList) (b : Backend) (mid : Op)
+    (hg : s.get c = some l) (hb : l.backends[i]? = some b) (hn : b.status = .normal)
+    (hmid : (∃ w, mid = .fail c i w) ∨ mid = .succeed c i) :
+    ctrsOf (step (step (step s (.inc c i)).1 mid).1 (.dec c i)).1 c = ctrsOf s c :=
+  connect_cycle_balanced s c i l b mid hg hb hn hmid
+
+example : ctrsOf (run (st1 5 [bk 0 0, { bk 1 1 with conns := 2 }] .random) [.inc 0 1, .fail 0 1 1, .dec 0 1]) 0
+    = [(0, 0, 0, 0), (1, 1, 2, 0)] := by decide
+
 /-- request counter (`active_requests += 1` / `saturating_sub(1)` at the session
     call sites): in every history where only requests in flight end, the count
     equals the number of requests in flight, hence 0 when all have ended. -/
